@@ -373,13 +373,30 @@ func runC10(c *Ctx) {
 			}
 			nChunk++
 			starts := map[string]bool{}
-			for _, leaf := range phiLeaves(sl.Low) {
-				f := loadedField(resolveCell(leaf))
-				if f == nil {
-					okChunk = false
-					continue
+			var note func(leaf ssa.Value, depth int)
+			note = func(leaf ssa.Value, depth int) {
+				leaf = resolveCell(leaf)
+				if f := loadedField(leaf); f != nil {
+					starts[pinFieldName(f)] = true
+					return
 				}
-				starts[pinFieldName(f)] = true
+				// the start computed by a helper of Commit that returns (head, tail) for one case
+				if ex, ok := stripConv(leaf).(*ssa.Extract); ok && depth < 2 {
+					if hc, ok := ex.Tuple.(*ssa.Call); ok && isHelperOf(fn, hc.Call.StaticCallee()) {
+						for _, hr := range returnsOf(hc.Call.StaticCallee()) {
+							if ex.Index < len(hr.Results) {
+								for _, l2 := range phiLeaves(hr.Results[ex.Index]) {
+									note(l2, depth+1)
+								}
+							}
+						}
+						return
+					}
+				}
+				okChunk = false
+			}
+			for _, leaf := range phiLeaves(sl.Low) {
+				note(leaf, 0)
 			}
 			if !(starts["head"] && starts["tail"] && starts["wrappedTail"] && len(starts) == 3) {
 				okChunk = false
